@@ -247,6 +247,22 @@ pub(crate) fn apply_header(response: &mut Response<Bytes>, headers: &[Header], i
     }
 }
 
+/// Applies the `vary` header of the rules in `settings` to the `response`.
+///
+/// For responses which don't come from a [`VariedResponse`],
+/// but replace one (and so depend on the same request headers).
+pub(crate) fn apply_header_from_settings(response: &mut Response<Bytes>, settings: &Settings) {
+    let headers: HeaderCollection = settings
+        .rules
+        .iter()
+        .map(|rule| Header {
+            name: rule.name(),
+            transformed: Cow::Borrowed(""),
+        })
+        .collect();
+    apply_header(response, &headers, false);
+}
+
 /// A header that is subject to the `vary` header.
 ///
 /// The `name` must not contains chars [0..=32] | 127.
